@@ -1,0 +1,3 @@
+// Package verifhook exposes internal entry points to the external verification
+// harness. Everything except this file is guarded by the build tag "verif".
+package verifhook
